@@ -603,6 +603,64 @@ def r06_8(prog, tab):
     return r
 
 
+def r06_9(prog, tab):
+    """Every variable-length output of an INTEGER_t goes through the minimal-octets test.  X.690 8.3.2 defines the
+    superfluous leading octet by the first octet and bit 8 of the second (`buf[1] & 0x80`); DER, canonical PER and the
+    text forms all need it so that a value stored with redundant leading octets (as decoded from non-minimal BER) comes
+    out like the minimal one.  Each encoder slot of asn_OP_INTEGER, and the text dumper the print and XER slots share,
+    contains that test itself or calls a function of the INTEGER files that does."""
+    r = Rule("R06.9", "every INTEGER encoder applies the superfluous-leading-octet test (first octet and bit 8 of the second)", floor=4)
+    tab_ = prog.op_tables.get("asn_OP_INTEGER")
+    if not tab_:
+        raise AnalysisBroken("asn_OP_INTEGER not found")
+    cg = prog.callgraph()
+
+    def has_test(f):
+        for b in f.blocks.values():
+            if not (b.term and "cond" in b.term):
+                continue
+            ct = b.term["cond"].get("full_tree") or b.term["cond"]["tree"]
+            for nd in walk(ct):
+                if nd[0] == "bin" and nd[1] == "&" and const_of(nd[3]) == 0x80:
+                    l = strip_casts(nd[2])
+                    if isinstance(l, list) and l and l[0] == "sub" and const_of(l[2]) == 1:
+                        return True
+        return False
+
+    def is_emitter(g):
+        return any("asn_app_consume_bytes_f" in p["type"] or "asn_per_outp" in p["type"] for p in g.params)
+
+    def reaches_test(f, seen=None):
+        """the function tests it itself, or hands the job to another *emitting* function of the INTEGER files that does
+        (a conversion helper such as asn_INTEGER2long has the test too, but what it yields is a number, not the octets)"""
+        seen = seen if seen is not None else set()
+        if f.key in seen:
+            return False
+        seen.add(f.key)
+        if has_test(f):
+            return True
+        for b, i, e, tg in cg.sites[f.key]:
+            for t in tg:
+                g = prog.funcs[t]
+                if "INTEGER" in g.relfile and is_emitter(g) and reaches_test(g, seen):
+                    return True
+        return False
+    for slot in ("der_encoder", "xer_encoder", "oer_encoder", "uper_encoder", "print_struct"):
+        v = tab_.get(slot)
+        if not (isinstance(v, str) and v.startswith("fn:")):
+            continue
+        f = prog.func(v[3:])
+        if f is None:
+            continue
+        key = "asn_OP_INTEGER.%s" % slot
+        if reaches_test(f):
+            r.ok(f, key, "%s (or a callee in the INTEGER files) tests the first octet against bit 8 of the second" % f.name, f.line)
+        else:
+            r.bad(f, key, "%s writes the stored octets without the superfluous-leading-octet test: 5 stored as 00 00 05 and as 05 give "
+                          "different output" % f.name, f.line)
+    return r
+
+
 def _reaches(f, cb, b):
     return b.id in f.reachable_from([cb.id])
 
@@ -610,7 +668,7 @@ def _reaches(f, cb, b):
 def run(ctx):
     prog = ctx.prog("S")
     tab = load_tables("c06")
-    return [r06_1(prog, tab), r06_1b(prog, tab), r06_1c(prog, tab), r06_2(prog, tab), r06_3(prog, tab), r06_4(prog, tab), r06_4b(prog, tab), r06_5(prog, tab), r06_6(prog, tab), r06_7(prog, tab), r06_8(prog, tab)]
+    return [r06_1(prog, tab), r06_1b(prog, tab), r06_1c(prog, tab), r06_2(prog, tab), r06_3(prog, tab), r06_4(prog, tab), r06_4b(prog, tab), r06_5(prog, tab), r06_6(prog, tab), r06_7(prog, tab), r06_8(prog, tab), r06_9(prog, tab)]
 
 
 def thorough(ctx):
